@@ -19,7 +19,7 @@ Note:
 |
 """
 
-from stix2.markings import granular_markings, object_markings
+from stix2.markings import granular_markings, object_markings, utils
 
 
 def get_markings(obj, selectors=None, inherited=False, descendants=False, marking_ref=True, lang=True):
@@ -225,19 +225,18 @@ def is_marked(obj, marking=None, selectors=None, inherited=False, descendants=Fa
     )
 
     if inherited:
-        granular_marks = granular_markings.get_markings(obj, selectors)
-        object_marks = object_markings.get_markings(obj)
+        # Object level markings are inherited by every property: test the
+        # requested marking(s) against everything get_markings() reports.
+        marks = set(
+            granular_markings.get_markings(obj, selectors, inherited, descendants),
+        )
+        marks.update(utils.convert_to_list(object_markings.get_markings(obj)) or [])
+        marking = utils.convert_to_marking_list(marking)
 
-        if granular_marks:
-            result = granular_markings.is_marked(
-                obj,
-                granular_marks,
-                selectors,
-                inherited,
-                descendants,
-            )
-
-        result = result or object_markings.is_marked(obj, object_marks)
+        if marking:
+            result = marks.issuperset(marking)
+        else:
+            result = bool(marks)
 
     return result
 
